@@ -12,7 +12,10 @@ use swimos_agent_protocol::encoding::downlink::*;
 use swimos_agent_protocol::encoding::lane::*;
 use swimos_agent_protocol::encoding::map::*;
 use swimos_agent_protocol::encoding::store::*;
-use swimos_agent_protocol::{DownlinkNotification, LaneRequest, LaneResponse, MapMessage, MapOperation, StoreInitMessage};
+use swimos_agent_protocol::encoding::command::*;
+use swimos_agent_protocol::{CommandMessage, DownlinkNotification, LaneRequest, LaneResponse, MapMessage, MapOperation, StoreInitMessage};
+use swimos_api::address::Address;
+use swimos_model::Text;
 use uuid::Uuid;
 use swimos_model::{Attr, Item, Value};
 use tokio_util::codec::{Decoder, Encoder};
@@ -388,6 +391,89 @@ fn main() {
         },
         MapLaneResponseEncoder::default(),
         MapLaneResponseDecoder::<i64, Value>::default()
+    );
+
+    // store initialisation (the runtime writes the stored bytes, the agent reads typed values)
+    let texts: Vec<(String, Value)> = pool.clone();
+    for _ in 0..(args.cases / 3).max(10) {
+        let n = rng.range(1, 4) as usize;
+        let mut expected: Vec<StoreInitMessage<Value>> = vec![];
+        let mut dst = BytesMut::new();
+        for _ in 0..n {
+            if rng.below(4) == 0 {
+                expected.push(StoreInitMessage::InitComplete);
+                RawValueStoreInitEncoder::default().encode(StoreInitMessage::<Vec<u8>>::InitComplete, &mut dst).unwrap();
+            } else {
+                let (t, v) = &texts[rng.usize_below(texts.len())];
+                expected.push(StoreInitMessage::Command(v.clone()));
+                RawValueStoreInitEncoder::default().encode(StoreInitMessage::Command(t.as_bytes().to_vec()), &mut dst).unwrap();
+            }
+        }
+        let data = dst.to_vec();
+        nontrivial += 1;
+        for chunks in splits(&mut rng, &data) {
+            evals += 1;
+            *kinds.entry("typed_value_store_init:chunkings".into()).or_default() += 1;
+            let sizes = chunks.iter().map(|c| c.len()).collect::<Vec<_>>();
+            match catch(AssertUnwindSafe(|| run(&mut ValueStoreInitDecoder::<Value>::default(), &chunks, 20 * (data.len() + 4)))) {
+                Ok(Ok((out, left))) => {
+                    if out != expected || left != 0 {
+                        failures.push(format!("typed_value_store_init {:?} in chunks of {:?}: decoded {:?} with {} bytes left", expected, sizes, out, left));
+                    }
+                }
+                Ok(Err(e)) => failures.push(format!("typed_value_store_init {:?} in chunks of {:?}: {}", expected, sizes, e)),
+                Err(m) => failures.push(format!("typed_value_store_init {:?}: the decoder panicked: {}", expected, m)),
+            }
+        }
+    }
+    for _ in 0..(args.cases / 3).max(10) {
+        let n = rng.range(1, 4) as usize;
+        let mut expected: Vec<StoreInitMessage<MapMessage<i64, Value>>> = vec![];
+        let mut dst = BytesMut::new();
+        for _ in 0..n {
+            if rng.below(4) == 0 {
+                expected.push(StoreInitMessage::InitComplete);
+                RawMapStoreInitEncoder::default().encode(StoreInitMessage::<MapMessage<Vec<u8>, Vec<u8>>>::InitComplete, &mut dst).unwrap();
+            } else {
+                let k = key(&mut rng);
+                let (t, v) = &texts[rng.usize_below(texts.len())];
+                expected.push(StoreInitMessage::Command(MapMessage::Update { key: k, value: v.clone() }));
+                RawMapStoreInitEncoder::default()
+                    .encode(StoreInitMessage::Command(MapMessage::Update { key: k.to_string().into_bytes(), value: t.as_bytes().to_vec() }), &mut dst)
+                    .unwrap();
+            }
+        }
+        let data = dst.to_vec();
+        nontrivial += 1;
+        for chunks in splits(&mut rng, &data) {
+            evals += 1;
+            *kinds.entry("typed_map_store_init:chunkings".into()).or_default() += 1;
+            let sizes = chunks.iter().map(|c| c.len()).collect::<Vec<_>>();
+            match catch(AssertUnwindSafe(|| run(&mut MapStoreInitDecoder::<i64, Value>::default(), &chunks, 20 * (data.len() + 4)))) {
+                Ok(Ok((out, left))) => {
+                    if out != expected || left != 0 {
+                        failures.push(format!("typed_map_store_init {:?} in chunks of {:?}: decoded {:?} with {} bytes left", expected, sizes, out, left));
+                    }
+                }
+                Ok(Err(e)) => failures.push(format!("typed_map_store_init {:?} in chunks of {:?}: {}", expected, sizes, e)),
+                Err(m) => failures.push(format!("typed_map_store_init {:?}: the decoder panicked: {}", expected, m)),
+            }
+        }
+    }
+    // ad hoc commands with Recon bodies
+    family!(
+        "typed_command_message",
+        |rng: &mut Rng| -> CommandMessage<Text, Value> {
+            let host = if rng.below(2) == 0 { Some(Text::new("ws://h:1")) } else { None };
+            let addr = Address::new(host, Text::new(["/n", "/node/a", "/é"][rng.usize_below(3)]), Text::new(["l", "lane", ""][rng.usize_below(3)]));
+            match rng.below(4) {
+                0 => CommandMessage::register(addr, rng.below(65536) as u16),
+                1 => CommandMessage::registered(rng.below(65536) as u16, val(rng), rng.below(2) == 0),
+                _ => CommandMessage::ad_hoc(addr, val(rng), rng.below(2) == 0),
+            }
+        },
+        CommandMessageEncoder::default(),
+        CommandMessageDecoder::<Text, Value>::default()
     );
 
     failures.sort();
